@@ -72,6 +72,8 @@ def main():
         dst=os.path.join(HERE,'seeded',key)
         os.makedirs(dst,exist_ok=True)
         shutil.copy(patch,os.path.join(dst,'patch.diff'))
+        demo_r=os.path.join(src,f'demo{n}.rebased.diff')
+        if os.path.exists(demo_r): demo=demo_r
         if os.path.exists(demo): shutil.copy(demo,os.path.join(dst,'demo.diff'))
         notes=os.path.join(src,'NOTES.md')
         if os.path.exists(notes): shutil.copy(notes,os.path.join(dst,'NOTES.md'))
